@@ -132,12 +132,16 @@ type c18HelperItem struct {
 
 var c18Bytes = []byte{'a', '<', '>', '&', '"', '\'', 0x00, 0xc3}
 
-func mkTraceReq(method, path, hval, body string) *http.Request {
+func mkTraceReq(method, path, hval, body string, unknownLen bool) *http.Request {
 	r := &http.Request{Method: method, URL: &url.URL{Path: path}, Proto: "HTTP/1.1", ProtoMajor: 1, ProtoMinor: 1, Header: http.Header{}, Host: "h"}
 	r.Header.Set("X-V", hval)
 	if body != "" {
 		r.Body = io.NopCloser(strings.NewReader(body))
 		r.ContentLength = int64(len(body))
+		if unknownLen { // chunked on the wire / a reader of unknown size
+			r.ContentLength = -1
+			r.TransferEncoding = []string{"chunked"}
+		}
 	}
 	return r
 }
@@ -149,13 +153,13 @@ func c18HelperJob(raw json.RawMessage) (any, error) {
 	outc := map[string]struct{}{}
 	strs := explore.AllStrings(c18Bytes, 2)
 	strs = append(strs, "<a>", "a&b", "\"'<", "&lt;", "é<é")
-	try := func(method, path, hval, body string, withBody bool) {
-		probe := fmt.Sprintf("mux.Trace(method=%q path=%q X-V=%q body=%q, body=%v)", method, path, hval, body, withBody)
+	try := func(method, path, hval, body string, withBody, unknownLen bool) {
+		probe := fmt.Sprintf("mux.Trace(method=%q path=%q X-V=%q body=%q unknown-length=%v, body=%v)", method, path, hval, body, unknownLen, withBody)
 		if it.Only != "" && it.Only != probe {
 			return
 		}
 		w := hv.NewWriter()
-		pv, bad := Guard(func() { mux.Trace(w, mkTraceReq(method, path, hval, body), withBody) })
+		pv, bad := Guard(func() { mux.Trace(w, mkTraceReq(method, path, hval, body, unknownLen), withBody) })
 		w.Finish()
 		out.Evals++
 		rep := func(class, obs, exp string) {
@@ -167,7 +171,7 @@ func c18HelperJob(raw json.RawMessage) (any, error) {
 			rep("panic", fmt.Sprintf("panic: %v", pv), "no panic")
 			return
 		}
-		dump, err := httputil.DumpRequest(mkTraceReq(method, path, hval, body), withBody)
+		dump, err := httputil.DumpRequest(mkTraceReq(method, path, hval, body, unknownLen), withBody)
 		if err != nil {
 			return
 		}
@@ -190,9 +194,11 @@ func c18HelperJob(raw json.RawMessage) (any, error) {
 	a := strs[it.First%len(strs)]
 	for _, b := range strs {
 		for _, withBody := range []bool{false, true} {
-			try("TRACE", "/"+a, b, "", withBody)
-			try("TRACE", "/p", a, b, withBody)
-			try("GET"+strings.ReplaceAll(a, "\x00", ""), "/"+b, "v", a+b, withBody)
+			try("TRACE", "/"+a, b, "", withBody, false)
+			for _, unk := range []bool{false, true} {
+				try("TRACE", "/p", a, b, withBody, unk)
+				try("GET"+strings.ReplaceAll(a, "\x00", ""), "/"+b, "v", a+b, withBody, unk)
+			}
 		}
 	}
 	out.Outcomes = keys(outc)
